@@ -1,2 +1,42 @@
-From Cddl Require Import Base.Bytes Cbor.Wire.
-Theorem placeholder : True. Proof. exact I. Qed.
+(* C11 - CBOR decoding implements RFC 8949 well-formedness and values.
+   Only statements closed by [exact]; proofs are in Cbor/DecodeProofs.v and Cbor/Float.v. *)
+From Cddl Require Import Base.Bytes Base.Utf8 Cbor.Wire Cbor.Wf Cbor.DecodeProofs Cbor.Float.
+Open Scope N_scope.
+
+(* the decoder model returns a value exactly when the bytes begin with a well-formed item *)
+Theorem C11_decode_spec : forall bs v, wf_bytes bs ->
+  (decode_cbor bs = Ok v <-> exists x e r, bs = e ++ r /\ Enc x e /\ v = to_value x).
+Proof. exact decode_spec. Qed.
+
+Theorem C11_decode_item_spec : forall bs i r, wf_bytes bs ->
+  (decode_item bs = Ok (i, r) <-> exists e, bs = e ++ r /\ Enc i e).
+Proof. exact decode_item_spec. Qed.
+
+(* it always answers: a value or an error, never "out of fuel" *)
+Theorem C11_decode_total : forall bs, wf_bytes bs ->
+  (exists v, decode_cbor bs = Ok v) \/ (exists k, decode_cbor bs = Err k /\ k <> EFuel).
+Proof. exact decode_total. Qed.
+
+(* RFC 8949 encodings are uniquely parseable *)
+Theorem C11_Enc_prefix_free : forall x e r x' e' r',
+  wf_bytes (e ++ r) -> Enc x e -> Enc x' e' -> e ++ r = e' ++ r' -> x = x' /\ e = e'.
+Proof. exact Enc_prefix_free. Qed.
+
+Theorem C11_encoding_independent : forall x e1 e2,
+  wf_bytes e1 -> wf_bytes e2 -> Enc x e1 -> Enc x e2 ->
+  decode_cbor e1 = Ok (to_value x) /\ decode_cbor e2 = Ok (to_value x).
+Proof. exact encoding_independent. Qed.
+
+(* binary16 -> binary64 widening is exact on all 65536 patterns *)
+Theorem C11_widen16_exact : forall x, x < 65536 -> widen16_ok x = true.
+Proof. exact widen16_exact. Qed.
+
+(* known finding: the crate's Value cannot tell undefined (simple 23) from null (simple 22) *)
+Theorem C11_to_value_injective_refuted : exists x x', x <> x' /\ to_value x = to_value x'.
+Proof. exact to_value_injective_refuted. Qed.
+
+(* non-vacuity: a nested item with indefinite containers and chunks is an encoding and decodes *)
+Example C11_example :
+  decode_item [159; 1; 95; 65; 7; 255; 191; 97; 97; 249; 60; 0; 255; 255; 9]
+  = Ok (IArr [IUint 1; IBytes [7]; IMap [(IText [97], IFloat 4607182418800017408)]], [9]).
+Proof. vm_compute. reflexivity. Qed.
